@@ -59,6 +59,9 @@ type Spec[C any] struct {
 	// driver can turn the last case into a replay when the process dies (in-process
 	// frps brought down by an unrecovered panic / fatal error).
 	Journal bool
+	// ShrinkTime bounds rapid's minimisation (default 30s): slow cases must not
+	// turn a found violation into a blown time budget.
+	ShrinkTime string
 }
 
 type checkStats struct {
@@ -301,9 +304,14 @@ func Run[C any](t *testing.T, s Spec[C]) {
 	_ = flag.Set("rapid.checks", strconv.Itoa(n))
 	_ = flag.Set("rapid.seed", strconv.FormatUint(seed, 10))
 	_ = flag.Set("rapid.nofailfile", "true")
-	if flag.Lookup("rapid.shrinktime") != nil && os.Getenv("VERIF_SHRINKTIME") != "" {
-		_ = flag.Set("rapid.shrinktime", os.Getenv("VERIF_SHRINKTIME"))
+	st := s.ShrinkTime
+	if st == "" {
+		st = "30s"
 	}
+	if v := os.Getenv("VERIF_SHRINKTIME"); v != "" {
+		st = v
+	}
+	_ = flag.Set("rapid.shrinktime", st)
 	mu.Lock()
 	stats.Property, stats.Shard, stats.Seed, stats.Tier = s.Prop, Shard(), BaseSeed(), Tier()
 	mu.Unlock()
